@@ -277,6 +277,8 @@ class IH5InnerNode(IH5Node):
                 elif is_virtual[k]:  # .. and k in children!
                     # decrease lower bound
                     children[k] = min(children[k], i)
+                    # stop at the first node that overrides (instead of patches) the path
+                    is_virtual[k] = _node_is_virtual(self._get_child_raw(k, i))
 
         # return resulting child nodes / attributes (without the deleted ones)
         # in alphabetical order,
